@@ -174,6 +174,12 @@ def gen(seed, tier):
     # destructor against a stop() issued by a job: the destructor must wait for that stop
     for pre in itertools.product(range(3), repeat=5):
         cases.append(mk("d%d" % b, 2, [('s', 0, 3, [6]), ('s', 0, 3, [])], list(pre) + [0] * 4)); b += 1
+    # three concurrent stop() callers from outside the pool while the only worker is busy: the first one joins, the other two
+    # wait for it and both have to be woken when it has finished
+    for pre in itertools.product(range(4), repeat=5):
+        cases.append(mk("c%d" % b, 1, [('s', 0, 3, [7, 8, 7]), ('x', 0), ('x', 1), ('x', 2)], list(pre) + [3, 2, 1, 0] * 3)); b += 1
+    for pre in itertools.product(range(3), repeat=4):
+        cases.append(mk("c%d" % b, 2, [('s', 1, 2, [7, 6]), ('s', 0, 0, [8, 7]), ('x', 1), ('x', 2), ('x', 0)], list(pre) + [4, 0, 3, 1] * 3)); b += 1
     # resume(suspend_point) with 1..9 prepared coroutines: every one of them has to reach the pool (and run on a worker)
     for k in range(1, 10):
         cases.append(mk("r%d" % b, 2, [('r', 0, k)], [1, 2, 0] * 4)); b += 1
